@@ -526,6 +526,7 @@ class Recorder:
         self.lock = threading.Lock()
         self.on_event = None
         self.last_finish = {}     # thread ident -> tid (int) of the last successful tpc_finish
+        self.last_vote = {}       # thread ident -> oids (ints) returned by the last tpc_vote
         for name in ('tpc_begin', 'store', 'checkCurrentSerialInTransaction', 'tpc_vote', 'tpc_finish',
                      'tpc_abort'):
             setattr(storage, name, self._wrap(name, getattr(storage, name)))
@@ -582,6 +583,7 @@ class Recorder:
             except BaseException as e:  # noqa: B902
                 rec.emit('vote', t, errname(e))
                 raise
+            rec.last_vote[threading.get_ident()] = [u64(x) for x in (v or [])]
             rec.emit('vote', t, 'voted [%s]' % ','.join(str(u64(x)) for x in (v or [])))
             return v
 
